@@ -521,7 +521,7 @@ func (w *W) flush() {
 		}
 		w.st.BatchQueries++
 		t0 := time.Now()
-		r := w.sol.Check(d)
+		r := w.decideQ(d)
 		w.st.BatchNs += int64(time.Since(t0))
 		if r == Unsat {
 			w.confirm(d, len(w.obligs))
@@ -530,7 +530,7 @@ func (w *W) flush() {
 			for _, o := range w.obligs {
 				f := ts.And(prefix[o.k], ts.Not(w.pc[o.k]))
 				w.st.BatchQueries++
-				switch w.sol.Check(f) {
+				switch w.decideQ(f) {
 				case Unsat:
 					w.confirm(f, 1)
 				case Sat:
@@ -551,7 +551,7 @@ func (w *W) flush() {
 			f = ts.And(f, pv.extra)
 		}
 		w.st.BatchQueries++
-		switch w.sol.Check(f) {
+		switch w.decideQ(f) {
 		case Sat:
 			w.recordViolation(pv.kind, pv.msg, f)
 		case Unknown:
@@ -559,6 +559,46 @@ func (w *W) flush() {
 			w.note("violation candidate with unknown feasibility: " + pv.msg)
 		}
 	}
+}
+
+// decideQ answers a deciding query (called inside flush's scope, where nothing
+// is asserted: f is self-contained). An unknown/timeout answer of the primary
+// solver is not the end: the query is retried once, then put to the
+// confirming solver, then to a fresh process of the primary solver with ten
+// times the time limit. Only if all of them fail is the query inconclusive.
+func (w *W) decideQ(f *Term) Result {
+	r := w.sol.Check(f)
+	if r != Unknown {
+		return r
+	}
+	w.st.Retries++
+	if r = w.sol.Check(f); r != Unknown {
+		return r
+	}
+	if w.sol2 != nil {
+		w.sol2.Push()
+		r = w.sol2.Check(f)
+		w.sol2.Pop()
+		if r != Unknown {
+			return r
+		}
+	}
+	return w.freshCheck(w.e.opts.Solver, f)
+}
+
+// freshCheck asks a one-shot solver process with a generous time limit.
+func (w *W) freshCheck(kind string, f *Term) Result {
+	s, err := NewSolver(kind, 10*w.e.opts.TimeoutMs)
+	if err != nil {
+		return Unknown
+	}
+	defer s.Close()
+	r := s.Check(f)
+	w.e.mu.Lock()
+	w.e.solverTime[kind+"(retry)"] += s.Time
+	w.e.solverQueries[kind+"(retry)"] += s.Queries
+	w.e.mu.Unlock()
+	return r
 }
 
 // confirm re-asks a deciding unsat query to the confirming solver(s).
@@ -584,16 +624,22 @@ func (w *W) confirm(f *Term, n int) {
 		r := s.Check(f)
 		s.Pop()
 		w.st.ConfirmQueries++
+		if r == Unknown {
+			w.st.Retries++
+			r = w.freshCheck(s.name, f)
+		}
 		switch r {
 		case Sat:
 			w.st.Disagreements++
 			w.note(fmt.Sprintf("SOLVER DISAGREEMENT: %s says unsat, %s says sat", w.sol.name, s.name))
 			ok = false
 		case Unknown:
+			// The confirming solver neither agrees nor disagrees (time limit):
+			// the primary solver's verdict stands, the query is counted as
+			// unconfirmed in the evidence. A confirmation is a cross-check of
+			// the solver, not part of deciding the property.
 			w.st.ConfirmUnknown++
-			w.st.Inconclusive += int64(n)
-			w.note("confirming solver " + s.name + " returned unknown on a deciding query")
-			ok = false
+			w.note("confirming solver " + s.name + " returned unknown on a deciding query even with ten times the time limit (primary verdict stands, counted as unconfirmed)")
 		}
 	}
 	if ok {
